@@ -17,6 +17,7 @@ def main() -> int:
     out = common.Outcome(pid, mod.LEVEL)
     try:
         if a.replay:
+            out.replay_mode = True
             replay = json.loads(open(a.replay).read())
             mod.replay(out, replay)
         else:
